@@ -256,6 +256,9 @@ def run(chk):
     vlib.tlc_mc("MC_Csv", "MC_Csv_sheets.cfg", workers=4, must_take=acts + ["SetActive"], check=chk)
     vlib.tlc_mc("MC_Csv", "MC_Csv_deep.cfg", workers=4, must_take=acts, check=chk)
     vlib.tlc_mc("MC_Csv", "MC_Csv_free.cfg", workers=4, must_take=["BeginFree", "Feed", "FinishFree"], check=chk)
+    if chk.tier == "thorough":
+        vlib.tlc_mc("MC_Csv", "MC_Csv_full.cfg", workers=4, must_take=acts, check=chk)
+        vlib.tlc_mc("MC_Csv", "MC_Csv_big.cfg", workers=4, must_take=acts, check=chk)
     # vacuity guard: without doubling of the wrap character TLC must refute ParsedEqualsGrid
     r = vlib.run_tlc("MC_Csv", "MC_Csv_noescape.cfg", workers=2, coverage=False)
     if not (r.violation and "ParsedEqualsGrid" in r.violation):
